@@ -53,6 +53,11 @@ def cases(draw):
             if tt is not None:
                 o["transport_timeout_s"] = tt
             o["read_timeout_s"] = rt
+    total = draw(st.sampled_from([None, None, 0, 0.5, 30]))
+    if total is not None:
+        for o in case["ops"]:
+            if o["op"] in ("shell", "exec_out", "root"):
+                o["timeout_s"] = total          # whole-command limit (0 is a legal value: "already over")
     if draw(st.sampled_from([False, False, True])):
         case["ops"].insert(draw(st.integers(0, len(case["ops"]))), {"op": "close"})
     if draw(st.sampled_from([False, False, True])):
